@@ -500,6 +500,17 @@ func runScenario(d *scripted, dAddr string, cfg *pb.Config, fail func(clause, si
 	if members(A) != "[1 2 3]" {
 		fail("fenced_change", "unfenced-add", "an add-member request carrying a wrong membership version took effect: members "+members(A), nil)
 	}
+	// version 0 is a version like any other: the shard's membership is past it, so the request is stale
+	if v1 > 0 {
+		set(A, add(0))
+		round(A, false)
+		time.Sleep(400 * time.Millisecond)
+		step("add_version_zero")
+		if members(A) != "[1 2 3]" {
+			fail("fenced_change", "unfenced-add-version-zero", fmt.Sprintf("an add-member request carrying membership version 0 took effect on a shard at version %d: members %s", v1, members(A)), nil)
+			return
+		}
+	}
 	set(A, add(v1))
 	round(A, false)
 	step("add_right_version")
